@@ -158,7 +158,7 @@ c05 = _simple('C05', rules_ttl.rule_c05,
               'R-WHO-WRITES-DEADLINE (no other operation touches a deadline), R-CFG-ONLY (update_ttl only stores the duration), '
               'R-REFILE-ON-UPDATE. Early removal is excluded by C03\'s licence rule.',
               ['steady_clock is monotone', 'now + ttl does not overflow (excluded by the property)'],
-              {'R-DEADLINE-PROV': 30, 'R-WRITE-RESTARTS-TTL': 30, 'R-CFG-ONLY': 1})
+              {'R-DEADLINE-PROV': 30, 'R-WRITE-RESTARTS-TTL': 30, 'R-CFG-ONLY': 1, 'R-TTL-USE': 200})
 c16 = _simple('C16', rules_ttl.rule_c16,
               'C16 (DESIGN.md 6.C16): ORD-WITNESS (A): the ttl structure of tlru/utlru is a std::multimap keyed by time_point with the default '
               'ordering, every write files the slot under exactly the term stored as its deadline and refreshes the stored position '
@@ -188,7 +188,7 @@ c12 = _simple('C12', lambda an, res: rules_pos.rule_order(an, res, 'C12', ['fifo
               'holds one), update and lookups move nothing, erase parks the freed node at the FRONT and unbinds it, so unbound nodes form the '
               'prefix the next inserts recycle and bound nodes stay in insertion order.',
               ['[list.ops] splice semantics', 'RI at entry (unbound nodes form a prefix)'],
-              {'R-USE-POS': 10, 'R-BIND-POS': 4, 'R-REMOVE-POS': 4, 'R-VICTIM': 2})
+              {'R-USE-POS': 10, 'R-BIND-POS': 4, 'R-REMOVE-POS': 4, 'R-VICTIM': 2, 'R-FIFO-UNBIND': 3})
 c13 = _simple('C13', lambda an, res: rules_pos.rule_order(an, res, 'C13', ['mru_cache']),
               'C13 (DESIGN.md 6.C13): mru list positions on every path: an update or non-peek hit ends with the entry at LAST_USED (just before '
               'the partition), a new entry is claimed at the partition and so ends LAST_USED, the victim is back() under size >= capacity '
@@ -231,7 +231,7 @@ c20 = _simple('C20', rules_misc.rule_c20,
               '(C08 R-FREE-SLOT: never read before the next bind writes them); the configured TTL is kept, as the statement says; a mutable '
               'field without a reset rule is reported. On the empty path nothing may change.',
               ['RI at entry', 'slots are interchangeable: behaviour does not depend on which free slot an insert claims'],
-              {'R-RESET-COMPLETE': 6})
+              {'R-RESET-COMPLETE': 6, 'R-FREE-SLOT': 30})
 c18 = _simple('C18', rules_misc.rule_c18,
               'C18 (DESIGN.md 6.C18): sibling agreement. For every range method (insert_range, erase_range, find_range, find_range_fill, fifo\'s '
               'iterator-pair overloads) the set of canonical path summaries (valuation, abstract effects, yielded result; subject key/value/ttl '
@@ -241,7 +241,7 @@ c18 = _simple('C18', rules_misc.rule_c18,
               'range (R-SIB-FWD). One critical section for the whole loop is C06.',
               ['ut_map/ut_set insert_range purges once before the loop: equal to per-call purging when uniform_ttl > 0 (observation O1)',
                'RI at entry of every iteration (loop invariant, by C01/C02 clauses)'],
-              {'R-SIB-BODY': 40, 'R-SIB-PLUMB': 100, 'R-SIB-ONCE': 40})
+              {'R-SIB-BODY': 40, 'R-SIB-PLUMB': 100, 'R-SIB-ONCE': 40, 'R-SIB-PREFIX': 30})
 c01 = _simple('C01', rules_misc.rule_c01,
               'C01 (DESIGN.md 6.C01): key<->slot binding discipline on every path of every entry point: R-LOOKUP-PROV (the index is consulted '
               'with the call\'s own key / range element, a hit yields exactly the value field of the slot the index names for that key, a miss '
